@@ -237,7 +237,7 @@ Fixpoint equals (a b : value) {struct a} : bool :=
       | VFloat n m => feq_if x n m
       | _ => false
       end
-  | VStr s => match b with VStr t => bytes_eqb s t | _ => false end
+  | VStr s => match b with VStr t => bytes_eqb s t | VBytes t => bytes_eqb s t | _ => false end
   | VBytes s =>
       match b with
       | VBytes t => match bytes_cmp s t with Eq => true | _ => false end
@@ -323,7 +323,7 @@ Fixpoint vcompare (a b : value) {struct a} : option comparison :=
       | VByte y => Some (x ?= y)
       | _ => None
       end
-  | VStr s => match b with VStr t => Some (bytes_cmp s t) | _ => None end
+  | VStr s => match b with VStr t => Some (bytes_cmp s t) | VBytes t => Some (bytes_cmp s t) | _ => None end
   | VBytes s =>
       match b with
       | VBytes t => Some (bytes_cmp s t)
@@ -539,16 +539,6 @@ Fixpoint wf (v : value) : bool :=
   end.
 
 (* guards of the known defect classes *)
-Fixpoint has_bytes (v : value) : bool :=
-  match v with
-  | VBytes _ => true
-  | VList l => (fix go (xs : list value) : bool := match xs with [] => false | x :: xs' => has_bytes x || go xs' end) l
-  | VMap m => (fix go (xs : list (bytes * value)) : bool :=
-                 match xs with [] => false | (_, x) :: xs' => has_bytes x || go xs' end) m
-  | VSet s => (fix go (xs : list value) : bool := match xs with [] => false | x :: xs' => has_bytes x || go xs' end) s
-  | _ => false
-  end.
-
 Fixpoint has_float (v : value) : bool :=
   match v with
   | VFloat _ _ => true
@@ -570,21 +560,6 @@ Fixpoint has_int (v : value) : bool :=
   | VSet s => (fix go (xs : list value) : bool := match xs with [] => false | x :: xs' => has_int x || go xs' end) s
   | _ => false
   end.
-
-Fixpoint has_str (v : value) : bool :=
-  match v with
-  | VStr _ => true
-  | VList l => (fix go (xs : list value) : bool := match xs with [] => false | x :: xs' => has_str x || go xs' end) l
-  | VMap m => (fix go (xs : list (bytes * value)) : bool :=
-                 match xs with [] => false | (_, x) :: xs' => has_str x || go xs' end) m
-  | VSet s => (fix go (xs : list value) : bool := match xs with [] => false | x :: xs' => has_str x || go xs' end) s
-  | _ => false
-  end.
-
-(* == is symmetric outside this class: a byte_slice somewhere in one operand and a string somewhere in
-   the other (ByteSlice.Equals accepts a String, String.Equals does not accept a ByteSlice) *)
-Definition sym_guard (a b : value) : bool :=
-  negb (has_bytes a && has_str b) && negb (has_str a && has_bytes b).
 
 (* == is transitive outside this class: int/byte == float == int/byte *)
 Definition trans_guard (a b c : value) : bool :=
@@ -621,7 +596,8 @@ Definition is_bytes (v : value) : bool := match v with VBytes _ => true | _ => f
 Definition is_str (v : value) : bool := match v with VStr _ => true | _ => false end.
 
 (* `x in set` agrees with iterating and comparing outside this class: a member of another type that is
-   numeric like x, or a byte_slice member against a string x *)
+   numeric like x, or a byte_slice member against a string x or the other way round (== holds across
+   these types, the hash key carries the type) *)
 Definition set_in_guard (s : list value) (x : value) : bool :=
   forallb (fun v => tag_eqb (tag_of v) (tag_of x)
-                    || negb ((numeric v && numeric x) || (is_bytes v && is_str x))) s.
+                    || negb ((numeric v && numeric x) || (is_bytes v && is_str x) || (is_str v && is_bytes x))) s.
